@@ -27,6 +27,7 @@ search         : public routines of pyamg/aggregation/aggregate.py (standard, na
                  a violation (deadline); real-valued Lloyd cases are also compared with `ext_c12_lloyd_agg`.
 """
 import hashlib
+import os
 
 import numpy as np
 import scipy.sparse as sp
@@ -399,10 +400,14 @@ def part_b(ctx, graphs):
             maxiter = int(rng.integers(1, 5))
             for nm, fn, kw in (('lloyd', AG.lloyd_aggregation, {'ratio': ratio, 'measure': measure, 'maxiter': maxiter}),
                                ('balanced_lloyd', AG.balanced_lloyd_aggregation, {'ratio': ratio, 'measure': measure, 'maxiter': maxiter})):
+                if nm == 'balanced_lloyd' and _BAL_UNSAFE:
+                    ctx.feat('balanced_lloyd_skipped_after_crash')      # part e (child process) already reported the crash
+                    continue
                 reg(nm, **kw)
                 np.random.seed(int(rng.integers(2**31)))
                 try:
-                    AggOp, centers = fn(C, **kw)
+                    with _cpu_limit(20.0):      # a Python-level loop that does not terminate is reported, not waited for
+                        AggOp, centers = fn(C, **kw)
                     e = check_aggop(AggOp, None, n, nm)
                     D = sp.csr_array(AggOp).toarray()
                     if not e:
@@ -667,8 +672,8 @@ def part_d(ctx, graphs):
 #     measure) hang or abort on e.g. C = [[0, 1-2j], [1-2j, 0]];
 # (2) balanced_lloyd_aggregation uses real(C.data) whatever the measure, so measure='abs' / 'inv' / 'unit' raise
 #     'requires a positive measure' as soon as one entry has a real part <= 0.
-COMPLEX_REAL_VIEW_FIXED = False         # (1): lloyd x complex x (None, 'min') and balanced x complex are generated
-BALANCED_COMPLEX_ANY_MEASURE = False    # (2): balanced x complex values with a real part <= 0 x measure other than None
+COMPLEX_REAL_VIEW_FIXED = True         # (1): lloyd x complex x (None, 'min') and balanced x complex are generated
+BALANCED_COMPLEX_ANY_MEASURE = True    # (2): balanced x complex values with a real part <= 0 x measure other than None
 
 _VALS = {
     'c_mixed': [2j, -1j, 0.5j, 1.0, 2.0, -1.0, -0.5, 1 + 1j, -1 + 2j, 0.5 - 1j, -2 - 0.5j],
@@ -715,7 +720,7 @@ def oracle_measure(z, measure):
     return np.real(w)
 
 
-class _Hang(Exception):
+class _NoReturn(Exception):
     pass
 
 
@@ -723,9 +728,9 @@ _DEADLINE = 20.0    # seconds; a Lloyd call on these graphs (n <= 60) takes mill
 
 
 def _with_deadline(fn):
-    """fn() in a worker thread (the native kernels release the GIL); raises _Hang when it has not returned in time.
+    """fn() in a worker thread (the native kernels release the GIL); raises _NoReturn when it has not returned in time.
     Bellman-Ford with a negative length never terminates: a routine that does not return violates the property, and
-    the check must not hang with it (the worker is a daemon thread; the caller stops its part after a _Hang)."""
+    the check must not hang with it (the worker is a daemon thread; the caller stops its part after a _NoReturn)."""
     import threading
     box = []
 
@@ -738,7 +743,7 @@ def _with_deadline(fn):
     th.start()
     th.join(_DEADLINE)
     if not box:
-        raise _Hang()
+        raise _NoReturn()
     if not box[0][0]:
         raise box[0][1]
     return box[0][1]
@@ -868,7 +873,7 @@ def values_case(ctx, c, wrapper_calls=None):
                         break
             res['err'] = e
             res['out'] = enc_ints(AggOp.indptr) + ';' + enc_ints(AggOp.indices) + ';' + enc_ints(AggOp.data) + ';' + enc_ints(centers)
-    except _Hang:
+    except _NoReturn:
         res['err'], res['hang'] = f'did not return within {_DEADLINE:.0f} s (a few milliseconds are normal)', True
     except Exception as ex:
         res['err'] = f'raised {type(ex).__name__}: {ex}'
@@ -878,7 +883,7 @@ def values_case(ctx, c, wrapper_calls=None):
 def part_v(ctx, graphs):
     try:
         _part_v(ctx, graphs)
-    except _Hang:
+    except _NoReturn:
         ctx.feat('values:stopped_after_hang')       # the kernel is still spinning in its thread: no further cases
 
 
@@ -909,7 +914,7 @@ def _part_v(ctx, graphs):
                 ctx.violation(f'{routine}{"" if "cluster" in routine else "_aggregation"} on {cls} values '
                               f'({ {k: v for k, v in kw.items() if k != "seed"} }): {res["err"]}', case, fkey=res['fkey'])
             if res.get('hang'):
-                raise _Hang()
+                raise _NoReturn()
             return case, res
         one('standard')
         one('naive')
@@ -927,10 +932,14 @@ def _part_v(ctx, graphs):
         if n >= 1 and t % 3 != 1:
             cen = [int(v) for v in rng.choice(n, size=int(rng.integers(1, min(n, 4) + 1)), replace=False)]
             for routine in ('lloyd_cluster', 'balanced_lloyd_cluster'):
+                if 'balanced' in routine and _BAL_UNSAFE:
+                    continue        # part e (child process) already reported a crash of the balanced Lloyd code
                 one(routine, centers=cen, maxiter=maxiter, seed=int(rng.integers(2**31)))
         fmt = 'csc' if t % 4 == 3 else 'csr'
         for measure in _MEASURES:
             for routine in ('lloyd', 'balanced_lloyd'):
+                if 'balanced' in routine and _BAL_UNSAFE:
+                    continue
                 if cplx and not COMPLEX_REAL_VIEW_FIXED and (routine == 'balanced_lloyd' or measure in (None, 'min')):
                     continue
                 if routine == 'balanced_lloyd' and cplx and measure is not None and cls != 'c_posre' and not BALANCED_COMPLEX_ANY_MEASURE:
@@ -959,6 +968,9 @@ def _part_v(ctx, graphs):
 # (the model checks that a recorded order is a sorted permutation).
 
 TOL = 1e-14          # `const double tol` of bellman_ford_balanced / floyd_warshall / center_nodes
+
+
+_BAL_UNSAFE = []     # set by part_e when the balanced Lloyd code crashed in its child: the in-process callers then skip it
 
 
 class _Hang(Exception):
@@ -1091,13 +1103,13 @@ def bal_cluster_item(n, ap, aj, ax, centers, maxiter, reb, tb):
     return line, out, res, err, len(spy.calls) // 2
 
 
-def part_e(ctx, graphs):
+def _bal_records(rng, graphs):
+    """generator (run in a forked child, see part_e): ('feat', name) | ('start', what, case) before a call of the
+    real code | ('item', (line, implementation output, what, nontrivial, property error or None, case))"""
     from pyamg import amg_core
     from pyamg import graph as PG
     from pyamg.aggregation import aggregate as AG
     import warnings
-    rng = ctx.np_rng
-    items = []
     for t, (M, kind) in enumerate(graphs):
         M = np.array(M)
         n = M.shape[0]
@@ -1106,7 +1118,7 @@ def part_e(ctx, graphs):
         ap, aj, ax, wk, sym = bal_weights(rng, M, t)
         has_edge = bool(len(aj))
         conn = _strongly_connected(n, ap, aj)
-        ctx.feat('bal_weights:' + wk + ('+connected' if conn else ''))
+        yield ('feat', 'bal_weights:' + wk + ('+connected' if conn else ''))
         # ---- balanced_lloyd_cluster with explicit centres
         k = int(rng.integers(1, min(n, 5) + 1))
         centers = rng.choice(n, size=k, replace=False).astype(np.int32)
@@ -1132,9 +1144,10 @@ def part_e(ctx, graphs):
             reb = 0      # maxiter = 0 with a rebalance round reads uninitialised work arrays (reported finding): not called
         tb = bool(t % 4 != 3)
         c0 = [int(v) for v in centers]
-        line, out, res, err, nreb = bal_cluster_item(n, ap, aj, axc, centers, maxiter, reb, tb)
         case = {'routine': 'balanced_lloyd_cluster', 'n': n, 'ap': ap.tolist(), 'aj': aj.tolist(),
                 'ax': [float(v) for v in axc], 'centers': c0, 'maxiter': maxiter, 'reb': reb, 'tb': tb}
+        yield ('start', 'balanced_lloyd_cluster', case)
+        line, out, res, err, nreb = bal_cluster_item(n, ap, aj, axc, centers, maxiter, reb, tb)
 
         def judge(res=res, err=err, n=n, k=len(c0), sym=sym, conn=conn, valid=valid, maxiter=maxiter):
             if res is None:
@@ -1152,11 +1165,11 @@ def part_e(ctx, graphs):
             if sym and maxiter >= 1:
                 return bal_cluster_spec_error(n, res[0], res[1], k)
             return None
-        items.append((line, out, 'balanced_lloyd_cluster', has_edge, judge, case))
-        ctx.feat('bal_cluster:' + ('valid' if valid else 'rejected'))
-        ctx.feat(f'bal_rebalance_calls:{min(nreb, 3)}')
+        yield ('item', (line, out, 'balanced_lloyd_cluster', has_edge, judge(), case))
+        yield ('feat', 'bal_cluster:' + ('valid' if valid else 'rejected'))
+        yield ('feat', f'bal_rebalance_calls:{min(nreb, 3)}')
         if res is not None and valid and not (res[1] == np.array(c0)).all():
-            ctx.feat('bal_cluster:centres moved')
+            yield ('feat', 'bal_cluster:centres moved')
         # ---- raw center_nodes kernel on the state one real Bellman-Ford pass leaves
         if valid and t % 2 == 0:
             cs = np.array(c0, dtype=np.int32)
@@ -1171,6 +1184,8 @@ def part_e(ctx, graphs):
             m[cs] = np.arange(kk)
             p[cs] = cs
             pc[cs] = 1
+            yield ('start', 'center_nodes', {'routine': 'center_nodes', 'n': n, 'ap': ap.tolist(), 'aj': aj.tolist(),
+                                             'ax': [float(v) for v in ax], 'centers': c0})
             try:
                 amg_core.bellman_ford_balanced(n, ap, aj, ax, cs, d, m, p, pc, s, True)
                 ok = m.min() >= 0 and s.max() <= maxsize
@@ -1198,7 +1213,7 @@ def part_e(ctx, graphs):
                     if sym and any(m[c] != a for a, c in enumerate(cs)):
                         return 'center_nodes moved a centre out of its cluster'
                     return None
-                items.append((line, out, 'center_nodes', has_edge, judge_cn, case))
+                yield ('item', (line, out, 'center_nodes', has_edge, judge_cn(), case))
         # ---- balanced_lloyd_aggregation through the public wrapper: the centres are the replayed permutation
         if t % 2 == 1 or n <= 4:
             measure = ['None', 'unit', 'abs', 'inv', 'min'][int(rng.integers(5))]
@@ -1219,6 +1234,7 @@ def part_e(ctx, graphs):
                     'ax': [float(v) for v in ax2], 'seed': seed, **kw}
             np.random.seed(seed)
             err = None
+            yield ('start', 'balanced_lloyd_aggregation', case)
             with _ArgsortSpy(PG) as spy:
                 try:
                     with warnings.catch_warnings():
@@ -1261,10 +1277,79 @@ def part_e(ctx, graphs):
                 if res[0].toarray().sum(1).min() != 1:
                     return 'a node is left unaggregated'
                 return None
-            items.append((line, out, 'balanced_lloyd_aggregation', has_edge, judge_agg, case))
-            ctx.feat('bal_measure:' + measure)
+            yield ('item', (line, out, 'balanced_lloyd_aggregation', has_edge, judge_agg(), case))
+            yield ('feat', 'bal_measure:' + measure)
+
+
+def _stream_child(gen_fn, wall):
+    """run the generator gen_fn() in a forked child and yield its records here; the last record is
+    ('__end__', status): None (clean exit), ('signal', n), ('exit', code) or ('timeout',).  A crash of the code under
+    test (undefined behaviour in a kernel) then ends the child, not the check."""
+    import multiprocessing as mp
+    import time
+    import traceback
+    mpc = mp.get_context('fork')
+    pr, pw = mpc.Pipe(duplex=False)
+
+    def work():
+        try:
+            for rec in gen_fn():
+                pw.send(rec)
+        except BaseException:
+            try:
+                pw.send(('__error__', traceback.format_exc()[-2000:]))
+            except Exception:
+                pass
+            os._exit(3)
+        pw.close()
+        os._exit(0)
+    proc = mpc.Process(target=work, daemon=True)
+    proc.start()
+    pw.close()
+    t_end = time.time() + wall
+    status = None
+    while True:
+        left = t_end - time.time()
+        if left <= 0 or not pr.poll(left):
+            proc.kill()
+            status = ('timeout',)
+            break
+        try:
+            rec = pr.recv()
+        except EOFError:
+            break
+        yield rec
+    proc.join(30)
+    if status is None and proc.exitcode != 0:
+        status = ('signal', -proc.exitcode) if (proc.exitcode or 0) < 0 else ('exit', proc.exitcode)
+    yield ('__end__', status)
+
+
+def part_e(ctx, graphs):
+    """balanced Lloyd vs the Lean model; the real routines run in a forked child (a kernel crash or a call that does
+    not return is reported as a violation on the pending case instead of killing the check)"""
+    items, pending = [], None
+    rng = ctx.np_rng
+    for rec in _stream_child(lambda: _bal_records(rng, graphs), wall=ctx.scale(900, 5400)):
+        if rec[0] == 'feat':
+            ctx.feat(rec[1])
+        elif rec[0] == 'start':
+            pending = (rec[1], rec[2])
+        elif rec[0] == 'item':
+            items.append(rec[1])
+            pending = None
+        elif rec[0] == '__error__':
+            raise RuntimeError('part_e child failed:\n' + rec[1])
+        elif rec[0] == '__end__' and rec[1] is not None:
+            st = rec[1]
+            if pending is not None and st[0] in ('signal', 'timeout'):
+                how = f'the interpreter died with signal {st[1]}' if st[0] == 'signal' else 'the call did not return'
+                ctx.violation(f'{pending[0]}: {how} (crash / hang inside the routine on this input)', pending[1])
+                _BAL_UNSAFE.append(st)
+            else:
+                raise RuntimeError(f'part_e child ended abnormally: {st}')
     outs = ctx.lean([it[0] for it in items]) if items else []
-    for (line, out, what, nontriv, judge, case), o in zip(items, outs):
+    for (line, out, what, nontriv, e, case), o in zip(items, outs):
         ctx.case(key=_key(line), nontrivial=nontriv,
                  sample={'request': line[:200], 'model': o[:100], 'impl': out[:100]} if ctx.evaluations % 97 == 0 else None)
         ctx.feat('bal:' + what)
@@ -1273,101 +1358,113 @@ def part_e(ctx, graphs):
             ctx.feat('bal:' + o[:40])
         elif o != out:
             ctx.corr(what + ' vs BalLloyd model', case, o, out)
-        e = judge()
         if e:
             ctx.violation(f'{what}: {e}', case)
-
 
 def run(ctx):
     if ctx.quick:
         part_a(ctx, list(graph_stream(ctx, 4, 300, 40)))
+        # balanced Lloyd (E34) in a forked child BEFORE the in-process callers of the same code (parts b, v): a crash
+        # is reported on its input and the later parts skip the routine; the fork leaves the parent's stream untouched
+        part_e(ctx, list(graph_stream(ctx, 4, 300, 24)))
         part_b(ctx, list(graph_stream(ctx, 4, 200, 30)))
         part_c(ctx, list(graph_stream(ctx, 4, 300, 40)))     # after a, b: leaves the random streams of parts a, b unchanged
         part_d(ctx, list(graph_stream(ctx, 4, 300, 30)))
-        part_e(ctx, list(graph_stream(ctx, 4, 300, 24)))     # balanced Lloyd (E34)
         part_v(ctx, list(graph_stream(ctx, 4, 200, 30)))     # part v (values) last: the random streams of the parts above are unchanged
     else:
         part_a(ctx, list(graph_stream(ctx, 6, 5000, 60)))
+        part_e(ctx, list(graph_stream(ctx, 5, 4000, 40)))
         part_b(ctx, list(graph_stream(ctx, 5, 3000, 60)))
         part_c(ctx, list(graph_stream(ctx, 5, 5000, 60)))
         part_d(ctx, list(graph_stream(ctx, 5, 4000, 50)))
-        part_e(ctx, list(graph_stream(ctx, 5, 4000, 40)))
         part_v(ctx, list(graph_stream(ctx, 5, 2500, 50)))
 
 
 def search(ctx):
+    part_e(ctx, list(graph_stream(ctx, 5, 1500, 40)))
     part_b(ctx, list(graph_stream(ctx, 5, 1500, 40)))
     part_c(ctx, list(graph_stream(ctx, 5, 1500, 40)))
     part_d(ctx, list(graph_stream(ctx, 5, 1500, 40)))
-    part_e(ctx, list(graph_stream(ctx, 5, 1500, 40)))
     part_v(ctx, list(graph_stream(ctx, 5, 1500, 40)))
 
 
 def replay_bal(ctx, c):
-    from pyamg import amg_core
-    from pyamg import graph as PG
-    from pyamg.aggregation import aggregate as AG
-    import warnings
-    n = int(c['n'])
-    ap, aj = np.array(c['ap'], dtype=np.int32), np.array(c['aj'], dtype=np.int32)
-    ax = np.array(c['ax'], dtype=np.float64)
-    if c['routine'] == 'balanced_lloyd_cluster':
-        line, out, res, err, _ = bal_cluster_item(n, ap, aj, ax, np.array(c['centers'], dtype=np.int32), int(c['maxiter']),
-                                                  int(c['reb']), bool(c['tb']))
-        if res is not None and int(c['maxiter']) >= 1:
-            e = bal_cluster_spec_error(n, res[0], res[1], len(c['centers']))
-            if e:
-                print('  specification:', e)
-    elif c['routine'] == 'center_nodes':
-        cs = np.array(c['centers'], dtype=np.int32)
-        kk = len(cs)
-        maxsize = int(12 * np.ceil(n / kk))
-        d = np.full(n, np.inf)
-        m = np.full(n, -1, dtype=np.int32)
-        p = np.full(n, -1, dtype=np.int32)
-        pc = np.zeros(n, dtype=np.int32)
-        s = np.ones(kk, dtype=np.int32)
-        d[cs] = 0
-        m[cs] = np.arange(kk)
-        p[cs] = cs
-        pc[cs] = 1
-        amg_core.bellman_ford_balanced(n, ap, aj, ax, cs, d, m, p, pc, s, True)
-        line = (f'ext_c12_center_nodes {_hdr(n, ap, aj, ax)} {enc_rat(TOL)} {maxsize} {enc_ints(cs)} {_orats(d)} '
-                f'{enc_ints(m)} {enc_ints(p)} {enc_ints(pc)} {enc_ints(s)}')
-        ch = amg_core.center_nodes(n, ap, aj, ax, np.zeros(kk, dtype=np.int32), np.zeros(maxsize * maxsize),
-                                   np.zeros(maxsize * maxsize, dtype=np.int32), np.zeros(n, dtype=np.int32),
-                                   np.zeros(n, dtype=np.int32), np.zeros(maxsize), cs, d, m, p, pc, s)
-        out = enc_ints(cs) + ';' + _orats(d) + ';' + enc_ints(p) + ';' + enc_ints(pc) + ';' + ('true' if ch else 'false')
-    else:
-        np.random.seed(int(c['seed']))
-        perm = np.random.permutation(n)
-        np.random.seed(int(c['seed']))
-        C = sp.csr_array((ax.copy(), aj.copy(), ap.copy()), shape=(n, n))
-        ms = 'None' if c['measure'] is None else c['measure']
-        with _ArgsortSpy(PG) as spy:
-            try:
-                with warnings.catch_warnings():
-                    warnings.simplefilter('ignore')
-                    with _cpu_limit():
-                        AggOp, ce = AG.balanced_lloyd_aggregation(C, ratio=c['ratio'], measure=c['measure'],
-                                                                  maxiter=int(c['maxiter']),
-                                                                  rebalance_iters=int(c['rebalance_iters']))
-                AggOp = sp.csr_array(AggOp)
-                out = enc_ints(AggOp.indptr) + ';' + enc_ints(AggOp.indices) + ';' + enc_ints(AggOp.data) + ';' + enc_ints(ce)
-                e = check_aggop(AggOp, ce, n, 'balanced_lloyd')
+    def real():
+        from pyamg import amg_core
+        from pyamg import graph as PG
+        from pyamg.aggregation import aggregate as AG
+        import warnings
+        n = int(c['n'])
+        ap, aj = np.array(c['ap'], dtype=np.int32), np.array(c['aj'], dtype=np.int32)
+        ax = np.array(c['ax'], dtype=np.float64)
+        if c['routine'] == 'balanced_lloyd_cluster':
+            line, out, res, err, _ = bal_cluster_item(n, ap, aj, ax, np.array(c['centers'], dtype=np.int32), int(c['maxiter']),
+                                                      int(c['reb']), bool(c['tb']))
+            if res is not None and int(c['maxiter']) >= 1:
+                e = bal_cluster_spec_error(n, res[0], res[1], len(c['centers']))
                 if e:
                     print('  specification:', e)
-            except ValueError as ex:
-                msg = str(ex)
-                out = ('ValueError:maxsize' if 'maxsize' in msg else 'ValueError:disconnected' if 'disconnected' in msg
-                       else 'ValueError:pc' if 'Predecessor' in msg else 'ValueError')
-            except RuntimeError:
-                out = 'too-many-iterations'
-            except _Hang:
-                out = 'hang'
-        es, ss = _ords(spy.calls)
-        line = (f'ext_c12_ballloyd_agg {ms} {enc_rat(c["ratio"])} {_hdr(n, ap, aj, ax)} {enc_rat(TOL)} {enc_ints(perm)} '
-                f'{int(c["maxiter"])} {int(c["rebalance_iters"])} {es} {ss}')
+        elif c['routine'] == 'center_nodes':
+            cs = np.array(c['centers'], dtype=np.int32)
+            kk = len(cs)
+            maxsize = int(12 * np.ceil(n / kk))
+            d = np.full(n, np.inf)
+            m = np.full(n, -1, dtype=np.int32)
+            p = np.full(n, -1, dtype=np.int32)
+            pc = np.zeros(n, dtype=np.int32)
+            s = np.ones(kk, dtype=np.int32)
+            d[cs] = 0
+            m[cs] = np.arange(kk)
+            p[cs] = cs
+            pc[cs] = 1
+            amg_core.bellman_ford_balanced(n, ap, aj, ax, cs, d, m, p, pc, s, True)
+            line = (f'ext_c12_center_nodes {_hdr(n, ap, aj, ax)} {enc_rat(TOL)} {maxsize} {enc_ints(cs)} {_orats(d)} '
+                    f'{enc_ints(m)} {enc_ints(p)} {enc_ints(pc)} {enc_ints(s)}')
+            ch = amg_core.center_nodes(n, ap, aj, ax, np.zeros(kk, dtype=np.int32), np.zeros(maxsize * maxsize),
+                                       np.zeros(maxsize * maxsize, dtype=np.int32), np.zeros(n, dtype=np.int32),
+                                       np.zeros(n, dtype=np.int32), np.zeros(maxsize), cs, d, m, p, pc, s)
+            out = enc_ints(cs) + ';' + _orats(d) + ';' + enc_ints(p) + ';' + enc_ints(pc) + ';' + ('true' if ch else 'false')
+        else:
+            np.random.seed(int(c['seed']))
+            perm = np.random.permutation(n)
+            np.random.seed(int(c['seed']))
+            C = sp.csr_array((ax.copy(), aj.copy(), ap.copy()), shape=(n, n))
+            ms = 'None' if c['measure'] is None else c['measure']
+            with _ArgsortSpy(PG) as spy:
+                try:
+                    with warnings.catch_warnings():
+                        warnings.simplefilter('ignore')
+                        with _cpu_limit():
+                            AggOp, ce = AG.balanced_lloyd_aggregation(C, ratio=c['ratio'], measure=c['measure'],
+                                                                      maxiter=int(c['maxiter']),
+                                                                      rebalance_iters=int(c['rebalance_iters']))
+                    AggOp = sp.csr_array(AggOp)
+                    out = enc_ints(AggOp.indptr) + ';' + enc_ints(AggOp.indices) + ';' + enc_ints(AggOp.data) + ';' + enc_ints(ce)
+                    e = check_aggop(AggOp, ce, n, 'balanced_lloyd')
+                    if e:
+                        print('  specification:', e)
+                except ValueError as ex:
+                    msg = str(ex)
+                    out = ('ValueError:maxsize' if 'maxsize' in msg else 'ValueError:disconnected' if 'disconnected' in msg
+                           else 'ValueError:pc' if 'Predecessor' in msg else 'ValueError')
+                except RuntimeError:
+                    out = 'too-many-iterations'
+                except _Hang:
+                    out = 'hang'
+            es, ss = _ords(spy.calls)
+            line = (f'ext_c12_ballloyd_agg {ms} {enc_rat(c["ratio"])} {_hdr(n, ap, aj, ax)} {enc_rat(TOL)} {enc_ints(perm)} '
+                    f'{int(c["maxiter"])} {int(c["rebalance_iters"])} {es} {ss}')
+        yield ('res', line, out)
+    line = out = None
+    for rec in _stream_child(real, wall=600):
+        if rec[0] == 'res':
+            line, out = rec[1], rec[2]
+        elif rec[0] == '__error__':
+            raise RuntimeError('replay child failed:\n' + rec[1])
+        elif rec[0] == '__end__' and rec[1] is not None:
+            print('replaying', c['routine'], ': the routine crashed / did not return in the child process:', rec[1])
+            ctx.violation(f"{c['routine']}: crash / hang inside the routine ({rec[1]})", c)
+            return
     o = ctx.lean([line])[0]
     print('replaying', c['routine'], ': model =', o[:200], '| implementation =', out[:200])
     if o != out and not o.startswith('unmodelled'):
